@@ -8,6 +8,15 @@ var commonAssumptions = []string{
 }
 
 func init() {
+	register("C09", &propDef{
+		Run: runC09,
+		Info: propInfo{
+			Explanation: "Typestate/counting analysis of deadline.Deadline: every acyclic path of Set and of the timer callback is enumerated over the abstract entry state {stopped, started, exceeded} (loads of state before the first store denote the entry value, so infeasible combinations are pruned), the outcome of timer.Stop() and the class of the argument (zero/future/past). Checked per feasible path: delta(pending) = #arms - [Stop()==true]; Stop() is called first and exactly when the entry state is started; outcome by argument class (arm xor close, final state); a fresh done channel iff the entry state is exceeded, before any close/arm; the argument is stored; the callback decrements first and signals only on pending==0 and state==started, closing the channel value read under the lock; Err/Done/Deadline return the right fields; lock balance. These are the bookkeeping conditions that neutralise a stale callback for every sequence of Sets and every callback interleaving; wall-clock exactness and the runtime Timer contract are trusted, not decided.",
+			RuleText:    "one obligation per rule; a site is one feasible (path x entry state x Stop outcome x argument class) combination, or a matched return/lock operation; non-trivial = at least one feasible path matched",
+			Assumptions: append([]string{"time.Timer / time.AfterFunc: Stop() returns true iff the callback was prevented from running; Reset re-arms"}, commonAssumptions...),
+		},
+		Thorough: []LoadCfg{{GOOS: "js", GOARCH: "wasm"}, {GOOS: "windows", GOARCH: "amd64"}},
+	})
 	register("C08", &propDef{
 		Run: runC08,
 		Info: propInfo{
